@@ -159,6 +159,7 @@ func c16r1(c *Ctx, id string) {
 			c.Undecided(id, "discovery", get.Pos(), "%d discovery metric fields written in Get (expected 4)", n)
 		}
 	}
+	noRetainedPositionMap(c, id)
 	// the discovery metric accessor only hands out the struct Get filled (values in effect, not pending ones)
 	for _, gm := range w.implsOf("stream", "VBucketDiscovery", "GetMetric") {
 		c.see(gm)
